@@ -265,7 +265,7 @@ class _Walker(object):
             env = dict(env)
             for _ in range(2):
                 e2 = dict(env)
-                self._bind_target(s.target, elem(it), e2)
+                self._bind_target(s.target, elem(it), e2, s.iter)
                 e2 = self._body(s.body, e2, scope)
                 env = self._join(env, e2)
             env = self._body(s.orelse, env, scope)
@@ -298,12 +298,21 @@ class _Walker(object):
             return env
         return env
 
-    def _bind_target(self, t, vs, env):
+    def _bind_target(self, t, vs, env, iter_node=None):
         if isinstance(t, ast.Name):
             env[t.id] = vs
         elif isinstance(t, (ast.Tuple, ast.List)):
-            for x in t.elts:
-                self._bind_target(x.value if isinstance(x, ast.Starred) else x, elem(vs), env)
+            keyed = (
+                len(t.elts) == 2
+                and isinstance(iter_node, ast.Call)
+                and (
+                    (isinstance(iter_node.func, ast.Attribute) and iter_node.func.attr == "items")
+                    or (isinstance(iter_node.func, ast.Name) and iter_node.func.id == "enumerate")
+                )
+            )
+            for i, x in enumerate(t.elts):
+                # `for name, param in d.items()` / `for i, x in enumerate(xs)`: the first of the pair is a key / an index
+                self._bind_target(x.value if isinstance(x, ast.Starred) else x, EMPTY if keyed and i == 0 else elem(vs), env)
 
     def _assign(self, t, val, value_node, env, scope, stmt):
         if isinstance(t, ast.Name):
@@ -402,7 +411,7 @@ class _Walker(object):
         if isinstance(e, (ast.ListComp, ast.SetComp, ast.GeneratorExp, ast.DictComp)):
             env2 = dict(env)
             for g in e.generators:
-                self._bind_target(g.target, elem(self._views(g.iter, env2, scope)), env2)
+                self._bind_target(g.target, elem(self._views(g.iter, env2, scope)), env2, g.iter)
                 for c in g.ifs:
                     self._eval(c, env2, scope)
             if isinstance(e, ast.DictComp):
